@@ -54,6 +54,7 @@ type c07Plan struct {
 	Eth       int           `json:"eth"`
 	Deliver   []c07Delivery `json:"deliver"`
 	SchedSeed uint64        `json:"sched_seed"`
+	Drivers   int           `json:"drivers,omitempty"` // >1: the deliveries are dealt out to that many concurrent transport tasks
 }
 
 type c07 struct{}
@@ -72,16 +73,29 @@ func (c07) Budget(tier string) runner.Budget {
 
 func (c07) Describe() runner.Description {
 	return runner.Description{
-		Rule:        "each plan: 2..6 honestly signed transactions (native with harness keys; EIP-155 wrapped Ethereum transactions for this chain id) and 10..60 deliveries, each either intact or tampered by exactly one mutation: substitution of one authenticated field (source, target, type, data, extra data, nonce, chain id, time, declared hash - with or without the tamperer recomputing the hash), signature r/s/v bit flips, signature spliced from another honest transaction, one bit flipped anywhere in the marshalled bytes (when it still parses); for wrapped transactions additionally outer-field substitutions, bit flips in the RLP payload, and inner re-encodings (to/nonce/value/gas/data/chain id changed under the original signature; unrecoverable signatures and other-chain signatures declaring the zero address as sender). Ingress paths: peer-to-peer TransactionGotMsg bytes (as envelope, or inside a gateway frame of every accepted method; alone or in one batch with an intact honest transaction in front of or behind it), client write topic, queued write handler (both branches). Direct probes: honest transactions of keys whose public point has a coordinate with a leading zero byte (sender address from an independent Keccak over the padded coordinates) must pass; on a chain whose id changes at a fork height, native and wrapped transactions signed for either id are verified at heights on either side of the fork in a seeded order (accepted exactly when the ids match); bytes appended behind the signed RLP payload must be refused. Exact oracle at quiescence: every pending transaction equals an honestly signed one on all authenticated fields; every honest transaction delivered intact is pending. distinct_nontrivial = distinct (ingress path, mutation kind, tx form, rehash) tuples exercised.",
+		Rule:        "each plan: 2..6 honestly signed transactions (native with harness keys; EIP-155 wrapped Ethereum transactions for this chain id) and 10..60 deliveries, each either intact or tampered by exactly one mutation: substitution of one authenticated field (source, target, type, data, extra data, nonce, chain id, time, declared hash - with or without the tamperer recomputing the hash), signature r/s/v bit flips, signature spliced from another honest transaction, one bit flipped anywhere in the marshalled bytes (when it still parses); for wrapped transactions additionally outer-field substitutions, bit flips in the RLP payload, and inner re-encodings (to/nonce/value/gas/data/chain id changed under the original signature; unrecoverable signatures and other-chain signatures declaring the zero address as sender). Ingress paths: peer-to-peer TransactionGotMsg bytes (as envelope, or inside a gateway frame of every accepted method; alone or in one batch with an intact honest transaction in front of or behind it), client write topic, queued write handler (both branches). Direct probes: honest transactions of keys whose public point has a coordinate with a leading zero byte (sender address from an independent Keccak over the padded coordinates) must pass; on a chain whose id changes at a fork height, native and wrapped transactions signed for either id are verified at heights on either side of the fork in a seeded order (accepted exactly when the ids match); bytes appended behind the signed RLP payload must be refused. In 30% of the plans the deliveries are dealt out to 2-3 concurrent transport tasks, so that verifications overlap (statement-level yield points inside middleware/types); the same plans run in the race-detector stage. Exact oracle at quiescence: every pending transaction equals an honestly signed one on all authenticated fields; every honest transaction delivered intact is pending. distinct_nontrivial = distinct (ingress path, mutation kind, tx form, rehash) tuples exercised.",
 		Assumptions: []string{"unauthenticated fields (request id, socket id, sub-transactions) are not mutated"},
 		Real:        []string{"service.VerifyTransaction (hash, chain id, signature, EIP-155 path, compareTx)", "common secp256k1 sign/recover", "eth_tx (RLP, EIP-155 signer, ConvertTx)", "network receive path (envelope + transaction codecs)", "core game executor ingress handlers", "notify bus fan-out under the simulated scheduler"},
 		Stub:        []string{"websocket gate (bytes are injected at handleMessage)", "ConsensusHelper"},
-		FaultKinds:  []string{"tamper_field", "tamper_bitflip", "tamper_signature", "tamper_inner_rlp", "replay_intact", "key_with_short_coordinate", "chain_id_fork_crossed", "unprotected_eth_tx", "batch_with_honest_neighbour"},
+		FaultKinds:  []string{"tamper_field", "tamper_bitflip", "tamper_signature", "tamper_inner_rlp", "replay_intact", "key_with_short_coordinate", "chain_id_fork_crossed", "unprotected_eth_tx", "batch_with_honest_neighbour", "concurrent_transports"},
 	}
 }
 
 var c07NativeMuts = []string{"src", "tgt", "type", "data", "extra", "nonce", "chain", "time", "hash", "sig-r", "sig-s", "sig-v", "sig-twin", "splice", "bitflip"}
 var c07EthMuts = []string{"src", "tgt", "type", "data", "nonce", "chain", "hash", "extra-bit", "in-to", "in-nonce", "in-value", "in-gas", "in-data", "in-chain", "in-chain-zero", "in-garbage-zero", "in-src-zero", "extra-append", "extra-noncanon", "extra-noncanon", "bitflip"}
+
+// RacePlan / RaceFrames: race-detector stage (DESIGN.md 13.4) over concurrent transports.
+func (c07) RacePlan(seed uint64, i int) json.RawMessage {
+	var p c07Plan
+	json.Unmarshal(c07{}.Gen(runner.PlanSeed(seed, "C07-race", i), "quick"), &p)
+	p.Drivers = 2 + i%2
+	b, _ := json.Marshal(p)
+	return b
+}
+
+func (c07) RaceFrames() []string {
+	return []string{"/src/service.", "/src/middleware/types.", "/src/eth_tx.", "/src/common/secp256k1", "/src/common/ecies"}
+}
 
 func (c07) Gen(seed uint64, tier string) json.RawMessage {
 	r := simrt.NewRand(seed)
@@ -89,6 +103,9 @@ func (c07) Gen(seed uint64, tier string) json.RawMessage {
 	n := r.Range(10, 30)
 	if r.Chance(0.3) {
 		n = r.Range(31, 60)
+	}
+	if r.Chance(0.3) {
+		p.Drivers = r.Range(2, 3)
 	}
 	paths := []string{"net", "net", "net", "client", "runwrite0", "runwriteN"}
 	for i := 0; i < n; i++ {
@@ -502,8 +519,15 @@ func (c07) Exec(raw json.RawMessage, st *simrt.Stats, log *simrt.Log) *simrt.Vio
 	tuples := map[string]bool{}
 
 	var directViol *simrt.Violation
-	deliverAll := func() {
+	drivers := p.Drivers
+	if drivers < 1 {
+		drivers = 1
+	}
+	deliverPart := func(part int) {
 		for i, d := range p.Deliver {
+			if i%drivers != part {
+				continue
+			}
 			h := honest[d.Tx%len(honest)]
 			var tx *types.Transaction
 			if d.Mut == "" {
@@ -597,7 +621,17 @@ func (c07) Exec(raw json.RawMessage, st *simrt.Stats, log *simrt.Log) *simrt.Vio
 			}
 		}
 	}
-	res := simsched.Run(simsched.Options{Seed: p.SchedSeed, Policy: "random", MaxPreempt: -1, MaxSteps: 400000}, []string{"driver"}, []func(){deliverAll})
+	var names []string
+	var bodies []func()
+	for k := 0; k < drivers; k++ {
+		k := k
+		names = append(names, fmt.Sprintf("driver%d", k))
+		bodies = append(bodies, func() { deliverPart(k) })
+	}
+	if drivers > 1 {
+		st.Fault("concurrent_transports")
+	}
+	res := simsched.Run(simsched.Options{Seed: p.SchedSeed, Policy: "random", MaxPreempt: -1, MaxSteps: 400000}, names, bodies)
 	if res.Panic != nil {
 		return viol(-1, "host-panic", "ingress", "a handler panicked: %v", res.Panic)
 	}
